@@ -170,7 +170,25 @@ def recompute_table(P, chk):
     def spec(pt):
         return "const:true" if (not pt["bypass"] or pt["conv"] == "Historical") else "const:false"
 
-    res = tables.decide(b, points, value_of, spec)
+    def outcome_of(path):
+        # the result may be returned as `is_bypass()` / `!is_bypass()` directly: evaluate it at the point
+        s = tables.outcome_const(b, path)
+        return s
+
+    def outcome_at(path, pt):
+        s = tables.outcome_const(b, path)
+        if s == "call:" + Q + "::DateRange::is_bypass":
+            return "const:true" if pt["bypass"] else "const:false"
+        if s == "op:Not(call:" + Q + "::DateRange::is_bypass)":
+            return "const:false" if pt["bypass"] else "const:true"
+        return s
+
+    res = tables.TableResult()
+    for pt in points:
+        r1 = tables.decide(b, [pt], value_of, spec, lambda p, pt=pt: outcome_at(p, pt))
+        res.points += r1.points
+        res.paths = r1.paths
+        res.bad += r1.bad
     chk.add_paths(res.paths)
     chk.require(not res.bad, R_REC, "BalanceQuery::require_recompute|range set or historical", b.loc(),
                 "require_recompute differs from `!bypass || Historical`: %s" % "; ".join("%s: %s" % (fmt_point(p), m) for p, m in res.bad[:2]),
